@@ -562,6 +562,23 @@ func (x *Exec) evalCall(env *Env, e *ECall) (Value, types.Type) {
 	case "typeis":
 		v, _ := x.eval(env, e.Args[0])
 		return x.typeIs(env.st, v.(*Term), env.resolveType(e.TypeArgs[0])), boolT
+	case "unchangedElems": // unchangedElems(T): every array of T elements that existed at function entry holds what it held then
+		if env.old == nil {
+			panic("contract: unchangedElems() outside a postcondition")
+		}
+		et := env.resolveType(e.TypeArgs[0])
+		var conj []*Term
+		for _, c := range comps(et) {
+			name := elemHeapName(et, c.Suffix)
+			srt := arrSort(SInt, arrSort(SInt, c.Sort))
+			cur, was := env.mem.getHeap(name, srt), env.old.getHeap(name, srt)
+			if cur.String() == was.String() {
+				continue
+			}
+			a := mkVar("a!ue", SInt)
+			conj = append(conj, mkForall([]*Term{a}, mkImplies(mkCmp("<=", a, env.old.top), mkEq(mkSelect(cur, a), mkSelect(was, a)))))
+		}
+		return mkAnd(conj...), boolT
 	case "zero":
 		t := env.resolveType(e.TypeArgs[0])
 		return x.zeroValue(t), t
